@@ -60,6 +60,12 @@ impl Env {
         for (n, x) in [("q-1", &q - 1u32), ("q-2", &q - 2u32), ("(q-1)/2", (&q - 1u32) >> 1), ("(q+1)/2", (&q + 1u32) >> 1), ("zeta", dc.zeta.clone()), ("3021", u(3021)), ("2^252", BigUint::from(1u8) << 252), ("zeta^2", dc.f().sqr(&dc.zeta))] {
             fqs.push((n.into(), x));
         }
+        for (i, x) in crate::fields::prand(0x13, 24, &q).into_iter().enumerate() {
+            fqs.push((format!("pseudo-random #{i}"), x));
+        }
+        for (i, (x, e)) in crate::sqrtclass::elligator_r0s(&dc, true).into_iter().step_by(97).take(24).enumerate() {
+            fqs.push((format!("sqrt-class r0 #{i} (log {e:#x})"), x));
+        }
         let scalars = vec![("0".into(), u(0)), ("1".into(), u(1)), ("2".into(), u(2)), ("r-1".into(), &r - 1u32), ("(r+1)/2".into(), (&r + 1u32) >> 1), ("r".into(), r.clone()), ("2^255-19".into(), (BigUint::from(1u8) << 255) - 19u32)];
         Env { dc, els: element_inputs(), encs, fqs, scalars }
     }
